@@ -28,6 +28,21 @@ def jsonable(v):
         return None
 
 
+def canon_text(v) -> str:
+    try:
+        return json.dumps(v, sort_keys=True)
+    except Exception:
+        return repr(v)
+
+
+def differs(a, b) -> bool:
+    """Content difference.  A top-level bool and the int of the same value are taken as the same content (bool is an int in
+    Python and the collector's byte-level comparison does not separate them); everything else is compared as canonical JSON text."""
+    if isinstance(a, (bool, int)) and isinstance(b, (bool, int)) and not isinstance(a, float) and not isinstance(b, float):
+        return a != b
+    return canon_text(a) != canon_text(b)
+
+
 def fq(cls) -> str:
     return f"{cls.__module__}.{cls.__qualname__}"
 
@@ -61,7 +76,8 @@ def judge(run, nodes, detail, tz):
             yield ("node-id", "identity.node_id is not the UUID of the node that ran", dict(where, got=ser["identity"]["node_id"], want=uuids[i]))
         # ---- delta -------------------------------------------------------------------------------------
         created = sorted(k for k in post if k not in pre)
-        updated = sorted(k for k in post if k in pre and jsonable(pre[k]) != jsonable(post[k]))
+        # a difference of content: 12 and 12.0, 1 and True, 0.0 and -0.0 are different values although Python's == says equal
+        updated = sorted(k for k in post if k in pre and differs(pre[k], post[k]))
         cd = ser.get("context_delta") or {}
         if cd.get("created_keys") != created:
             yield ("created-keys", "context_delta.created_keys is not the set of keys the node added",
@@ -343,6 +359,11 @@ def gen_case(rnd, i):
                 {"processor": 'template:"t{%s}":tt' % k}, {"processor": 'template:"t{%s}":tt' % k},
                 {"processor": "TOp0"}, {"processor": "TProbe", "context_key": k}]
         nodes = [n for n in nodes[:2] if n["processor"].startswith(("rename", "delete", "template"))] + tail
+    if i % 8 == 5:
+        # a key overwritten by a value that is ==-equal to the old one but different content, and one overwritten by the same content
+        old, new = rnd.choice([(12, 12.0), (1, True), (0, False), (0.0, -0.0), ([1, 2], [1.0, 2]), ({"n": 1}, {"n": True}), (7, 7), ("s", "s")])
+        nodes = [{"processor": "TSourceDef"}, {"processor": "TProbeEcho", "parameters": {"val": new}, "context_key": "level"}, {"processor": "TOp0"}]
+        ctx0 = {"level": old, "other": "kept"}
     return nodes, ctx0
 
 
@@ -388,7 +409,7 @@ def run(tier: str) -> int:
                 stats["placements"][key] = stats["placements"].get(key, 0) + 1
         for sig, what, det in judge(r, nodes, detail, tz):
             rep.add_violation(sig, what, {"nodes": nodes, "initial_context": ctx0, "detail": detail, "tz": tz, "finding": det})
-        if drv is not None:
+        if drv is not None and not any(n["processor"] == "TProbeEcho" for n in nodes):      # the echo behaviour is outside the execution model
             try:
                 m = model_sers(drv, nodes, ctx0, c01.DOC_TABLE)
                 stats["model_compared"] = stats.get("model_compared", 0) + 1
